@@ -21,6 +21,7 @@ import (
 
 	"github.com/google/martian/v3"
 	"github.com/google/martian/v3/parse"
+	"github.com/google/martian/v3/proxyutil"
 )
 
 // ValueRegexFilter executes resmod and reqmod when the header
@@ -81,7 +82,7 @@ func headerValueRegexFilterFromJSON(b []byte) (*parse.Result, error) {
 
 // ModifyRequest runs reqmod iff the value of header matches regex.
 func (f *ValueRegexFilter) ModifyRequest(req *http.Request) error {
-	hvalue := req.Header.Get(f.header)
+	hvalue := proxyutil.RequestHeader(req).Get(f.header)
 	if hvalue == "" {
 		return nil
 	}
@@ -95,7 +96,7 @@ func (f *ValueRegexFilter) ModifyRequest(req *http.Request) error {
 
 // ModifyResponse runs resmod iff the value of request header matches regex.
 func (f *ValueRegexFilter) ModifyResponse(res *http.Response) error {
-	hvalue := res.Request.Header.Get(f.header)
+	hvalue := proxyutil.RequestHeader(res.Request).Get(f.header)
 	if hvalue == "" {
 		return nil
 	}
